@@ -1,5 +1,6 @@
 import FastgoModel.Proofs.WriterControl
 import FastgoModel.Writer.Example
+import FastgoModel.Proofs.WriterWrap
 /-!
 # C16 — any call sequence is safe; Close is idempotent
 
@@ -91,9 +92,21 @@ example :
     r.2.map (·.err) = [none, none, none, some .closed, some .closed, none] ∧ r.1.dst.bytes = r1.1.dst.bytes := by
   decide
 
+/-- container Writers, any inner Writer: after a successful Close a further Close (gzip: also Flush, as in
+    compress/gzip) returns nil and changes nothing -/
+theorem C16_gzip_closed_idempotent {ι : Type} (O : CWriter.InnerOps ι) (z : CWriter.GW ι) (he : z.err = none)
+    (hc : z.closed = true) : CWriter.gClose O z = (z, {}) ∧ CWriter.gFlush O z = (z, {}) :=
+  CWriter.gzip_closed_idempotent O z he hc
+
+theorem C16_zlib_closed_idempotent {ι : Type} (O : CWriter.InnerOps ι) (z : CWriter.ZW ι) (he : z.err = none)
+    (hc : z.closed = true) (hw : z.wroteHeader = true) : CWriter.zClose O z = (z, {}) :=
+  CWriter.zlib_closed_idempotent O z he hc hw
+
 end Fastgo.Writer
 
 #print axioms Fastgo.Writer.C16_protocol_step
 #print axioms Fastgo.Writer.C16_after_close
 #print axioms Fastgo.Writer.C16_close_closes
 #print axioms Fastgo.Writer.C16_total
+#print axioms Fastgo.Writer.C16_gzip_closed_idempotent
+#print axioms Fastgo.Writer.C16_zlib_closed_idempotent
